@@ -1,5 +1,5 @@
-(* C08 — concrete witnesses (computed in the kernel by vm_compute): the retained-updateTime
-   defect, and non-vacuity examples for the hypotheses of the theorems. *)
+(* C08 — concrete witnesses (computed in the kernel by vm_compute): a regression example for the
+   (fixed) retained-updateTime defect, and non-vacuity examples. *)
 From Coq Require Import List ZArith Bool Lia.
 From Verif Require Import C08.Model C08.Spec.
 Import ListNotations.
@@ -16,24 +16,40 @@ Definition w_m1 : metric := mkM (Some 1000) None w_info w_pm.   (* report with a
 Definition w_m2 : metric := mkM None None w_info w_pm.          (* same report without one *)
 Definition w_ops : list op := [OReserve 0 1 w_pod; OMetric 0 1 w_m1; OMetric 0 1 w_m2].
 
-(* after the second report the cache still judges "not yet reflected" against the FIRST report's
-   update time: nodeDelta stays 0, while a fresh cache fed (w_m2, the pod) counts 100 - 10 *)
-Lemma sticky_update_time :
-  exists n, alookup 1 (run w_cfg w_ops) = Some n
+(* REGRESSION (defect fixed in /repo 56625eb).  The OLD AddOrUpdateNodeMetric kept the previous
+   report's update time when the new report had none: *)
+Definition set_metric_old (cfg : config) (node : Z) (m : metric) (c : cache) : cache :=
+  let n := get_node c node in
+  let ut := match m_ut m with Some t => t | None => n_ut n end in
+  aset node (mkN (n_pods n) (Some m) ut (rebuild cfg m ut (n_pods n))) c.
+
+(* with it, after the second report the cache still judged "not yet reflected" against the FIRST
+   report's update time: nodeDelta stayed 0, while a fresh cache fed (w_m2, the pod) counts
+   100 - 10 — the drift clause (1) of the property fails *)
+Lemma old_sticky_variant_drifts :
+  let c := set_metric_old w_cfg 1 w_m2 (run w_cfg [OReserve 0 1 w_pod; OMetric 0 1 w_m1]) in
+  exists n, alookup 1 c = Some n
     /\ n_metric n = Some w_m2
     /\ s_nodeDelta (n_sums n) = [0; 0]
     /\ s_nodeDelta (fresh_sums w_cfg n) = [90; 209715200]
-    /\ fresh_sums w_cfg n <> n_sums n.
+    /\ node_code w_cfg (Some n) (observe_node w_cfg c 1) = 1.
 Proof.
-  eexists. split; [vm_compute; reflexivity|].
-  split; [reflexivity|]. split; [vm_compute; reflexivity|]. split; [vm_compute; reflexivity|].
-  vm_compute. discriminate.
+  cbn zeta. eexists. split; [vm_compute; reflexivity|].
+  split; [reflexivity|]. split; [vm_compute; reflexivity|]. split; vm_compute; reflexivity.
 Qed.
 
-Lemma sticky_prop_code : prop_code w_cfg w_ops (run_obs w_cfg [] w_ops) = 1.
-Proof. vm_compute. reflexivity. Qed.
+(* the repaired code: the same history has no drift *)
+Lemma untimed_report_no_drift :
+  exists n, alookup 1 (run w_cfg w_ops) = Some n
+    /\ n_metric n = Some w_m2
+    /\ s_nodeDelta (n_sums n) = [90; 209715200]
+    /\ fresh_sums w_cfg n = n_sums n.
+Proof.
+  eexists. split; [vm_compute; reflexivity|].
+  split; [reflexivity|]. split; vm_compute; reflexivity.
+Qed.
 
-(* a timed history on which estimates, a should=false pod and Filter decisions all occur *)
+(* a history on which estimates, a should=false pod and Filter decisions all occur *)
 Definition w_pod2 : pod :=
   mkPod 2 2 1 5000 false false false [40; 0] [0; 0] [None; None] (-1) (-1) 2 990 0 zero_time.
 Definition w_node : nodeobj := mkNode 1 [200; 1000000000] None None.
@@ -43,9 +59,6 @@ Definition w_m3 : metric := mkM (Some (-10)) None w_info w_pm.
 Definition w_ops2 : list op :=
   [OReserve 0 1 w_pod; OMetric 0 1 w_m3; OAdd (-5) w_pod2; OFilter 0 w_node w_in;
    ODelete 0 w_pod2; OFilter 0 w_node w_in].
-
-Example w_ops2_timed : ops_timed w_ops2 = true.
-Proof. reflexivity. Qed.
 
 (* usage 50 + (100-10) + 40 + incoming 20 = 200 of 200 > 65 %: rejected; after the delete
    50 + 90 + 20 = 160 of 200 = 80 % > 65 %: still rejected; memory is under 95 % *)
